@@ -1224,7 +1224,8 @@ Proof.
   destruct ((b =? 91) || (b =? 34) || (b =? 123)); [cbn [fst]; discriminate|].
   pose proof (peek_end_of_value_tot E s2) as Hp.
   destruct (peek_end_of_value E s2) as [s3|c i| |]; cbn [chk] in Hp; try discriminate Hp;
-    cbn [fst res_titem]; discriminate.
+    [cbn [fst]; discriminate|].
+  destruct c; cbn [fst res_titem]; discriminate.
 Qed.
 
 (* ---- the hypotheses cannot be dropped ---- *)
